@@ -34,11 +34,11 @@ SHARDS = {'quick': 8, 'thorough': 14}
 SHARD_TIMEOUT = {'quick': 900, 'thorough': 3400}
 EXHAUSTIVE = {'quick': False, 'thorough': False}
 MIN_HITS = {
-    'quick': {'mon:ckpt': 2000, 'mon:resume': 2000, 'crash:line': 1000, 'crash:torn': 60, 'crash:sequence': 30,
+    'quick': {'mon:ckpt': 2000, 'mon:resume': 2000, 'crash:line': 1000, 'crash:torn': 60, 'crash:fsop': 100, 'fsop:rename': 10, 'fsop:remove': 5, 'fsop:close': 20, 'crash:sequence': 30,
               'image:kill': 1000, 'image:exception': 1000, 'mon:keep': 500, 'crash-in:save_state': 30,
               'crash-in:save_checkpoint': 50, 'crash-after-last-round': 30, 'restart-past-last-round': 8,
               'world:fedavg': 20},
-    'thorough': {'mon:ckpt': 40000, 'mon:resume': 40000, 'crash:line': 20000, 'crash:torn': 1000, 'crash:sequence': 1500,
+    'thorough': {'mon:ckpt': 40000, 'mon:resume': 40000, 'crash:line': 20000, 'crash:torn': 1000, 'crash:fsop': 1500, 'fsop:rename': 200, 'fsop:remove': 100, 'fsop:close': 300, 'crash:sequence': 1500,
                  'image:kill': 20000, 'image:exception': 20000, 'mon:keep': 10000, 'crash-in:save_state': 500,
                  'crash-in:save_checkpoint': 1000, 'crash-after-last-round': 500, 'restart-past-last-round': 100,
                  'world:fedavg': 300, 'crash:realkill': 20},
@@ -262,29 +262,52 @@ def install_keep_hook(ctx, checkpoint_mod):
 
 
 class Tearing:
-  """Tears the j-th file written through tf.io.gfile.GFile under `root` at byte offset n (then raises Crash)."""
+  """File-system fault layer over tf.io.gfile (harness side, repo untouched).
 
-  def __init__(self, tf, root, target_open, nbytes):
+  * tears the j-th file written through GFile under `root` at byte offset n (writes the prefix, flushes, raises Crash);
+  * numbers every file-system effect under `root` (GFile open-for-write, write, close, rename, remove) and can crash
+    right AFTER effect number `crash_after_op`, first handing the directory as the OS holds it to `on_fire`.
+  """
+
+  def __init__(self, tf, root, target_open, nbytes, crash_after_op=None, on_fire=None):
     self.tf, self.root, self.target_open, self.nbytes = tf, os.path.realpath(root), target_open, nbytes
+    self.crash_after_op, self.on_fire = crash_after_op, on_fire
     self.opens = 0
     self.fired = None
     self.sizes = {}
+    self.ops = []
+
+  def _inside(self, name):
+    return os.path.realpath(str(name)).startswith(self.root)
+
+  def _op(self, kind, name):
+    i = len(self.ops)
+    self.ops.append((kind, os.path.basename(str(name))))
+    if self.crash_after_op is not None and i == self.crash_after_op and self.fired is None:
+      self.fired = (kind, os.path.basename(str(name)), i)
+      if self.on_fire:
+        self.on_fire(self.fired)
+      raise failpoint.Crash(failpoint.Event(str(name), 0, 'fsop:' + kind, i))
 
   def __enter__(self):
-    real = self.tf.io.gfile.GFile
+    gf = self.tf.io.gfile
+    real = gf.GFile
     tearing = self
-    self.real = real
+    self.real, self.real_rename, self.real_remove = real, gf.rename, gf.remove
 
     class TearingGFile(real):
 
       def __init__(self, name, mode='r'):
         super().__init__(name, mode)
         self._vm_idx = None
-        if 'w' in mode and os.path.realpath(str(name)).startswith(tearing.root):
+        if 'w' in mode and tearing._inside(name):
           self._vm_idx = tearing.opens
           tearing.opens += 1
           self._vm_written = 0
           self._vm_name = str(name)
+          self._vm_closed = False
+          super().write(b'' if 'b' in mode else '')   # make the open visible (creates the file) like open(..., 'w')
+          tearing._op('open-w', name)
 
       def write(self, data):
         if self._vm_idx is None:
@@ -300,13 +323,35 @@ class Tearing:
             raise failpoint.Crash(failpoint.Event(self._vm_name, 0, 'GFile.write', -1))
         self._vm_written += len(b)
         tearing.sizes[self._vm_idx] = (self._vm_name, self._vm_written)
-        return super().write(data)
+        out = super().write(data)
+        tearing._op('write', self._vm_name)
+        return out
 
-    self.tf.io.gfile.GFile = TearingGFile
+      def close(self):
+        out = super().close()
+        if self._vm_idx is not None and not self._vm_closed:
+          self._vm_closed = True
+          tearing._op('close', self._vm_name)
+        return out
+
+    def rename(src, dst, overwrite=False):
+      out = tearing.real_rename(src, dst, overwrite)
+      if tearing._inside(dst):
+        tearing._op('rename', dst)
+      return out
+
+    def remove(path):
+      out = tearing.real_remove(path)
+      if tearing._inside(path):
+        tearing._op('remove', path)
+      return out
+
+    gf.GFile, gf.rename, gf.remove = TearingGFile, rename, remove
     return self
 
   def __exit__(self, *a):
-    self.tf.io.gfile.GFile = self.real
+    gf = self.tf.io.gfile
+    gf.GFile, gf.rename, gf.remove = self.real, self.real_rename, self.real_remove
     return False
 
 
@@ -331,6 +376,7 @@ def run_config(ctx, world, cfg, work, rng, mods, exhaustive, max_line_points):
   ref_tsv = {k: v for k, v in ref_files.items() if k.endswith('.tsv')}
   events = rec.events
   written = dict(sizes_probe.sizes)  # open index -> (name, total bytes)
+  fsops = list(sizes_probe.ops)
   mon = Monitor(ctx, world, cfg, ref_state, ref_tsv, S, serialization.load_state)
   mon.audit_image(root, {'phase': 'reference-end'})
   # running the same call again on the completed directory (crash after everything was done, then restart)
@@ -363,6 +409,21 @@ def run_config(ctx, world, cfg, work, rng, mods, exhaustive, max_line_points):
       except failpoint.Crash:
         pass
       return inj.fired, kill_dir[0], inj.event
+    elif fault[0] == 'fsop':
+
+      def on_fire_fs(info):
+        d = tempfile.mkdtemp(dir=work, prefix='kill-')
+        shutil.rmtree(d)
+        shutil.copytree(root, d)
+        kill_dir[0] = d
+
+      t = Tearing(tf, root, -1, None, crash_after_op=fault[1], on_fire=on_fire_fs)
+      try:
+        with t:
+          ctx.call('run_federated_experiment[rerun-under-fault]', world.run, root, cfg, witness={**w0, 'fault': list(fault)})
+      except failpoint.Crash:
+        pass
+      return t.fired is not None, kill_dir[0], t.fired
     else:
       t = Tearing(tf, root, fault[1], fault[2])
       try:
@@ -409,6 +470,26 @@ def run_config(ctx, world, cfg, work, rng, mods, exhaustive, max_line_points):
     if ev.file == fe.__file__ and ev.line >= 240:
       ctx.count('crash-after-last-round')
 
+  # ---------------- crash right after every file-system effect (open/write/close/rename/remove under root_dir)
+  for j, (kind, fname) in enumerate(fsops):
+    root = fresh_root(work, cfg)
+    fired, kill_dir, info = one_fault(root, ('fsop', j))
+    if not fired or info[:2] != (kind, fname):
+      ctx.inconclusive_because(f'non-deterministic fs-op replay: op {j} expected {(kind, fname)} got {info}')
+      shutil.rmtree(root, ignore_errors=True)
+      continue
+    ctx.count('crash:fsop')
+    ctx.count('fsop:' + kind)
+    for image, d in (('exception', root), ('kill', kill_dir)):
+      w = {'fault': 'after-fs-effect', 'op': kind, 'file': fname, 'op_index': j, 'image': image}
+      ctx.count('image:' + image)
+      mon.audit_image(d, {**w, 'phase': 'crash-instant'})
+      ctx.count('mon:ckpt')
+      mon.restart_and_compare(d, w)
+      ctx.case_done((tuple(sorted(cfg.items())), world.kind, 'fsop', j, kind, fname, image), sample={**w0, **w} if j % 11 == 0 else None,
+                    klass=['fsop-crash', 'image-' + image])
+      shutil.rmtree(d, ignore_errors=True)
+
   # ---------------- torn writes: every GFile written under root, at each prefix class
   for idx, (name, total) in sorted(written.items()):
     for n in sorted({0, 1, total // 2, max(0, total - 1)}):
@@ -436,7 +517,9 @@ def run_config(ctx, world, cfg, work, rng, mods, exhaustive, max_line_points):
     root = fresh_root(work, cfg)
     seq = []
     for _ in range(int(rng.randint(2, 4))):
-      if written and rng.rand() < 0.25:
+      if fsops and rng.rand() < 0.2:
+        fault = ('fsop', int(rng.randint(len(fsops))))
+      elif written and rng.rand() < 0.25:
         idx = int(rng.randint(len(written)))
         total = written[idx][1]
         fault = ('torn', idx, int(rng.randint(0, max(1, total))))
